@@ -39,7 +39,7 @@ def terminating_unwinds(fj):
     out = []
     for b in fn.blocks:
         t = b["insts"][-1]
-        if t["op"] != "invoke" or not (t.get("callee") or "").startswith(READER_SIDE):
+        if t["op"] != "invoke":
             continue
         seen, work = set(), [t["unwind"]]
         while work:
@@ -79,7 +79,7 @@ def check_reader(rep, g, build):
         rep.ok("C08.c", inst)
     tu = terminating_unwinds(hr.func)
     if tu:
-        rep.fail("C08.h", inst, ir.where(tu[0]), "an exception raised by %s while reading cannot propagate: a noexcept frame turns it into std::terminate (abort instead of exception)" % (tu[0].get("dcallee") or tu[0].get("callee"))[:60])
+        rep.fail("C08.h", inst, ir.where(tu[0]), "an exception raised by %s while reading (or while a reading exception unwinds) cannot propagate: a noexcept frame, e.g. a destructor, turns it into std::terminate (abort instead of exception)" % (tu[0].get("dcallee") or tu[0].get("callee") or "an indirect call")[:60])
     else:
         rep.ok("C08.h", inst)
     # C08.a
